@@ -45,7 +45,7 @@ def clean_stale_scratch():
 
 
 class Zygote(object):
-    def __init__(self, pool, hs_index, hashseed, slot):
+    def __init__(self, pool, hs_index, hashseed, slot, wait=True):
         self.pool = pool
         self.hs_index = hs_index
         self.hashseed = hashseed
@@ -57,9 +57,9 @@ class Zygote(object):
         self.frames = []
         self.jobs_done = 0
         self.hello = None
-        self.spawn()
+        self.spawn(wait=wait)
 
-    def spawn(self):
+    def spawn(self, wait=True):
         env = dict(os.environ)
         env['PYTHONHASHSEED'] = str(self.hashseed)
         env['PYTHONDONTWRITEBYTECODE'] = '1'
@@ -76,6 +76,10 @@ class Zygote(object):
         self.fd = self.proc.stdout.fileno()
         self.buf = b''
         self.frames = []
+        if wait:
+            self.wait_hello()
+
+    def wait_hello(self):
         hello = self._read_frames(1, time.time() + 60)
         if not hello or 'hello' not in hello[0]:
             raise HarnessError('zygote failed to start (hashseed %s): see %s' % (self.hashseed, self.pool.stderr_path))
@@ -172,8 +176,10 @@ class Pool(object):
         workers = max(workers, k)
         slot = 0
         for i in range(workers):
-            self.zygotes.append(Zygote(self, i % k, self.hashseeds[i % k], slot))
+            self.zygotes.append(Zygote(self, i % k, self.hashseeds[i % k], slot, wait=False))
             slot += 1
+        for z in self.zygotes:
+            z.wait_hello()
         self.next_slot = slot
         self.aslr_off = all(z.hello.get('aslr_off') for z in self.zygotes)
 
@@ -274,12 +280,13 @@ class Pool(object):
         self.next_slot += 1
         try:
             z.send(job)
-            frames = z._read_frames(2, time.time() + job.get('_wall_cap', self.wall_cap))
+            frames = z._read_frames(1, time.time() + job.get('_wall_cap', self.wall_cap))
             if not frames:
                 z.kill()
                 return {'harness_error': 'fresh zygote: no result (timeout or death)'}
-            res = frames[0] if 'exit' not in frames[0] else frames[1]
-            return res
+            if 'exit' in frames[0]:
+                return {'harness_error': 'fresh zygote: job child died with wait status %d and no result' % frames[0]['exit']}
+            return frames[0]
         finally:
             z.close()
 
